@@ -191,7 +191,7 @@ fn all_pops(max: usize, tag0: u32) -> Vec<Vec<T>> {
 
 fn main() {
     let rep = Reporter::from_args("C12");
-    rep.rule("all pairs of parent/offspring populations of uniquely tagged individuals of size 0..max over objective values {-1,0,-0,2,+inf} (ties and duplicates of values included, signed zeros tie) under a third untouched population, x all six replacement components x mu in 0..total+2 (x seeds for the random one), each initialised as in a run and, for odd seeds, followed by the initialisation of a second instance with other parameters in the same state: height -1, bottom untouched, result a sub-multiset of parents+offspring, content as the operator is named (parents / offspring / concatenation / min(mu,total) best with no discarded individual better than a kept one / any min(mu,total) / index-wise better with ties to the parent and Err on unequal sizes); plus random larger populations (incl. values one rounding error apart, which are different and must be told apart). distinct_nontrivial = distinct (operator, parents, offspring) cells (sampled 1/5)");
+    rep.rule("all pairs of parent/offspring populations of uniquely tagged individuals of size 0..max over objective values {-1,0,-0,2,+inf} (ties and duplicates of values included, signed zeros tie) under a third untouched population, x all six replacement components x mu in 0..total+2 (x seeds for the random one), each initialised as in a run and, for odd seeds, followed by the initialisation of a second instance with other parameters in the same state: height -1, bottom untouched, result a sub-multiset of parents+offspring, content as the operator is named (parents / offspring / concatenation / min(mu,total) best with no discarded individual better than a kept one / any min(mu,total) / index-wise better with ties to the parent and Err on unequal sizes); plus random larger populations (0..12 members, one in twelve 13..102; incl. values one rounding error apart, which are different and must be told apart). distinct_nontrivial = distinct (operator, parents, offspring) cells (sampled 1/5)");
     let max = rep.tier.pick(4usize, 5usize);
     rep.set("exhaustive_max_population_size", json!(max));
     let parents_all = all_pops(max, 1);
@@ -236,7 +236,8 @@ fn main() {
     for k in 0..rep.tier.pick(2_000, 3_000_000) {
         let mut tag = 0;
         let mut pop = |rng: &mut SplitMix64| -> Vec<T> {
-            (0..rng.usize(13))
+            // mostly 0..12 members; one case in twelve is well above the sizes at which sorting routines switch algorithm
+            (0..if rng.chance(0.08) { 13 + rng.usize(90) } else { rng.usize(13) })
                 .map(|_| {
                     tag += 1;
                     // incl. values one rounding error apart (0.6 / 0.6000000000000001): different, not tied
